@@ -1,6 +1,7 @@
 package hashmap
 
 import (
+	"github.com/emirpasic/gods/v2/containers"
 	"github.com/emirpasic/gods/v2/maps"
 	v "github.com/emirpasic/gods/v2/zzvsup"
 )
@@ -18,4 +19,11 @@ func VHMapStep() {
 	keys, vals := maps.VPairs(false)
 	m := VGMapOf(keys, vals)
 	maps.VMapStep(m, keys, vals, maps.VKind{Inv: func() { v.Assert(m.m != nil, "inv-map-nil") }})
+}
+
+// VHSnap: returned slices are snapshots, argument slices are copied, GetSortedValues leaves the container alone (C16).
+func VHSnap() {
+	ks, xs := maps.VPairs(false)
+	c := VGMapOf(ks, xs)
+	containers.VSnapStep(containers.VSnap{C: c, Keys: c.Keys, Mutate: []func(){c.Clear, func() { c.Put(v.Int("mk"), v.Int("mv")) }, func() { c.Remove(v.Int("mk")) }}, Hash: true})
 }
